@@ -739,6 +739,29 @@ def do_plot(m, a, b, step):
                             "compute_plot_time_series")
             finally:
                 plt.close(fig2)
+        if step.get("error_array") and a.model.n >= 2:
+            # error_array with the live time stamps / distances as x values
+            # and caller-owned arrays as y values and statistics
+            fig4 = plt.figure(figsize=(2, 2))
+            try:
+                err = np.linspace(0.5, 1.5, a.model.n)
+                x = a.obj.timestamps if (a.stamped and step["error_array"]
+                                         == "t") else a.obj.distances
+                stats = {"mean": 1.0, "std": 0.25, "rmse": 1.1}
+                err0, stats0 = err.copy(), dict(stats)
+                P.error_array(fig4.gca(), err, x_array=x, statistics=stats,
+                              cumulative=bool(step.get("cumulative")),
+                              threshold=step.get("threshold"),
+                              name="e", title="t", xlabel="x")
+                if not np.array_equal(err, err0) or stats != stats0:
+                    raise Violation("C16", "array-argument-changed",
+                                    op="compute", fn="plot.error_array")
+                pc = P.PlotCollection("c")
+                pc.add_figure("e", fig4)
+                pc.close()
+                m.probe_hit("compute_plot_error_array")
+            finally:
+                plt.close(fig4)
         if step.get("colormap") and a.model.n >= 2:
             fig3 = plt.figure(figsize=(2, 2))
             try:
@@ -1162,6 +1185,9 @@ def gen_step(m: Machine, rng, uid):
         st["label"] = rng.choice(["", "est"])
         st["many"] = rng.choice([None, "dict", "list"])
         st["start_timestamp"] = rng.choice([None, 0.0, 1.5, -2.0, 100.0])
+        st["error_array"] = rng.choice([None, "t", "d"])
+        st["cumulative"] = rng.random() < 0.5
+        st["threshold"] = rng.choice([None, 1.0])
         st["length_unit"] = rng.choice(["m", "m", "km", "mm"])
         if same:
             st["b"] = rng.choice(same).uid
